@@ -90,6 +90,13 @@ EvClone ==
     /\ curs' = (Rec[l].d :> curs[Rec[l].c]) @@ curs
     /\ UNCHANGED <<content, cfg>>
 
+\* a cursor (a clone used to try one operation) is dropped
+EvForget ==
+    /\ IsEvent("Forget")
+    /\ Rec[l].c \in DOMAIN curs
+    /\ curs' = [c \in DOMAIN curs \ {Rec[l].c} |-> curs[c]]
+    /\ UNCHANGED <<content, cfg>>
+
 \* a whole scan (next / prev until None) from a fresh or reset cursor, logged as one event
 EvScan ==
     /\ IsEvent("Scan")
@@ -101,7 +108,7 @@ EvScan ==
        /\ curs' = [curs EXCEPT ![e.c] = [pos |-> 0, zone |-> TRUE]]
     /\ UNCHANGED <<content, cfg>>
 
-TraceNext == EvReset \/ EvDict \/ EvWritten \/ EvOpen \/ EvCursor \/ EvOp \/ EvClone \/ EvScan
+TraceNext == EvReset \/ EvDict \/ EvWritten \/ EvOpen \/ EvCursor \/ EvOp \/ EvClone \/ EvForget \/ EvScan
 
 TraceSpec == TraceInit /\ [][TraceNext]_vars
 
